@@ -176,6 +176,79 @@ def sweep_programs():
     return out
 
 
+def _odd(b):
+    return bin(b).count("1") % 2 == 1
+
+
+_ROW_OF = {(hi, base): row for row, (hi, base) in g.ROW_CODE.items()}
+
+
+def italics_sweep(mid_keys, pac_keys):
+    """last round: EVERY code of the reader's regenerated mid-row table and EVERY key of its preamble table, sent WHILE
+    ITALICS ARE ON and followed by characters on the same row and on a following row. Only the KEYS (code words) of
+    pycaption's tables are used; what each word means is decoded here from the CEA-608 code assignments (mid-row codes
+    0x11 0x20-0x2f: attribute = low nibble, 14 / 15 italics; 0x17 0x2e / 0x2f: black / black underline - foreground
+    attributes like the colours, NOT italic; preamble codes: row from the byte pair, attribute = low five bits) and the
+    expectation is ok_c05 of the program (spec/Spec608.v + SpecScc05.v: a non-italic mid-row code / any non-italic preamble
+    code ends italics, an italic one keeps / starts them). The two black codes are not in the program type: the program
+    carries the white code of the same underline bit (Mid 0 / Mid 1, same 608 semantics: a non-italic attribute cell) and
+    the emitted word is replaced by the black one.
+    -> list of (program, {emitted word: word sent}, table key that must occur in the stream), and counters"""
+    out, info = [], {"mid_row_table_codes": 0, "black_mid_row_codes": 0, "mid_row_keys_not_608_mid_row": [],
+                     "pac_table_keys": 0, "pac_keys_with_even_parity_byte": 0, "channel_2_keys_in_tables": 0}
+    for key in sorted(mid_keys):
+        b1, b2 = int(key[:2], 16), int(key[2:], 16)
+        if not (_odd(b1) and _odd(b2)):
+            info["mid_row_keys_not_608_mid_row"].append(key)
+            continue
+        h, l = b1 & 0x7f, b2 & 0x7f
+        if h in (0x19, 0x1f):
+            info["channel_2_keys_in_tables"] += 1
+            continue
+        if h == 0x11 and 0x20 <= l <= 0x2f:
+            a, sub = l - 0x20, {}
+        elif h == 0x17 and l in (0x2e, 0x2f):
+            a = l - 0x2e                                           # white plain / white underline stands in
+            sub = {int(g.midrow(a), 16): int(key, 16)}
+            info["black_mid_row_codes"] += 1
+        else:
+            info["mid_row_keys_not_608_mid_row"].append(key)       # e.g. 94a8 (flash on): not a mid-row code of CEA-608
+            continue
+        info["mid_row_table_codes"] += 1
+        for r in (1, 13):
+            # italics switched on by the preamble code / by a mid-row code; then the code under test; then characters on the
+            # same row and on a following row (directly below: same caption / elsewhere: its own caption)
+            out.append(([False, [[[r, 0, 0, 14, text_items("ab") + [[3, a]] + text_items("cd")],
+                                  [r + 1, 4, 0, 0, text_items("ef")]]]], sub, key))
+            out.append(([False, [[[r, 0, 0, 0, text_items("ab") + [[3, 14]] + text_items("cd") + [[3, a]] + text_items("ef")],
+                                  [r + 2, 0, 0, 0, text_items("gh")]]]], sub, key))
+            out.append(([False, [[[r, 4, 1, 0, text_items("a") + [[3, 15]] + text_items("c") + [[3, a]] + text_items("e") +
+                                   [[3, 14]] + text_items("g")], [r + 1, 0, 0, 14, text_items("ij") + [[3, a]] + text_items("kl")]]]],
+                        sub, key))
+    for key in sorted(pac_keys):
+        b1, b2 = int(key[:2], 16), int(key[2:], 16)
+        info["pac_table_keys"] += 1
+        if not (_odd(b1) and _odd(b2)):
+            info["pac_keys_with_even_parity_byte"] += 1            # unreachable entries of the table
+            continue
+        h, l = b1 & 0x7f, b2 & 0x7f
+        if h >= 0x18:
+            info["channel_2_keys_in_tables"] += 1
+            continue
+        row = _ROW_OF[(h, l & 0x60)]
+        attr = l & 0x1f
+        if attr < 18:
+            ind, style = 0, attr
+        else:
+            ind, style = ((attr - 16) // 2) * 4, attr & 1
+        r_it = row + 2 if row + 2 <= 15 else row - 2               # the italic row sent first
+        r_nx = row + 1 if row + 1 <= 15 else row - 1               # the following row
+        out.append(([False, [[[r_it, 0, 0, 14 + (attr & 1), text_items("it") + [[3, 14]] + text_items("on")],
+                              [row, ind, 0, style, text_items("ab") + ([[3, 14]] + text_items("cd") if attr % 4 == 1 else [])],
+                              [r_nx, 0, 0, 16 if attr % 2 else 0, text_items("ef")]]]], {}, key))
+    return out, info
+
+
 def is_ctrl(w):
     return ((w >> 8) & 0x7f) < 0x20
 
@@ -425,6 +498,19 @@ def run(ctx):
         for p in ([False, [[[r, 0, 0, 14, text_items("it")], [r + 1, 0, 0, 16, text_items("pl")]]]],
                   [False, [[[r + 1, 0, 0, 15, text_items("it")], [r, 0, 0, 17, text_items("pl")]]]]):
             progs.append(("sweep", p, "edm-inline", "all", "plain"))
+    # last round: every mid-row code (incl. black 97ae / 972f) and every preamble key of the REGENERATED tables while italics
+    # are on; keys only - meanings from CEA-608 (see italics_sweep)
+    from pycaption.scc import constants as _c
+    pac_keys = [hi + lo for hi, los in _c.PAC_BYTES_TO_POSITIONING_MAP.items() for lo in los]
+    isw, isw_info = italics_sweep(list(_c.MID_ROW_CODES), pac_keys)
+    subst, need_key = {}, {}
+    for k, (p, sub, key) in enumerate(isw):
+        is_mid = k < 6 * isw_info["mid_row_table_codes"]
+        for dbl in (("none", "all") if is_mid else (("all",) if k % 2 else ("none",))):
+            subst[len(progs)] = sub
+            need_key[len(progs)] = key
+            progs.append(("sweep", p, "line-per-load", dbl, "plain"))
+    dist["italics_on_sweep"] = dict(isw_info, programs=len(need_key))
     dist["sweep_programs"] = len(progs)
     for p in enum_programs():
         for dbl in ("none", "all"):
@@ -442,7 +528,13 @@ def run(ctx):
     for i, ((kind, p, layout, dbl, text), e) in enumerate(zip(progs, emitted)):
         if i in inl and [list(ws[:-1]) + [W_EDM, W_EOC] for ws in e[2]] != [list(ws) for ws in inl[i]]:
             res["disagreements"].append({"which": "emit_load_w (506) is not emit_load (501) with EDM before the EOC", "program": p})
-        stream = build_stream(p, e[2], e[3], _random.Random(rng.random()), layout, dbl, text, inl.get(i))
+        words = e[2]
+        if subst.get(i):
+            words = [[subst[i].get(w, w) for w in ws] for ws in words]
+        stream = build_stream(p, words, e[3], _random.Random(rng.random()), layout, dbl, text, inl.get(i))
+        if i in need_key and need_key[i] not in stream:
+            res["disagreements"].append({"which": "the word emitted from the CEA-608 reading of a table key is not the key",
+                                         "key": need_key[i], "program": p, "stream": stream})
         cases.append((kind, p, e[0] == 1, e[1] == 1, stream, layout, dbl, text))
     obs, models, oks = judge_batch([(c[1], c[4]) for c in cases])
     # the text front end of the model is the Coq tokeniser (request 605); the Python copy of the reader's rules is run
